@@ -237,3 +237,28 @@ M("C19", "info-chars-regression", "client.py", "        info_bytes = info.encode
 M("C19", "sleep-plus-jitter", "client.py", "        return self.sleeptime - random.uniform(0, self.sleeptime * self.jitter / 100)", "        return self.sleeptime + random.uniform(0, self.sleeptime * self.jitter / 100)", "C19.R6")
 T("C19", "twin-sleep-reordered", "client.py", "        return self.sleeptime - random.uniform(0, self.sleeptime * self.jitter / 100)", "        jit = random.uniform(0, self.jitter * self.sleeptime / 100.0)\n        return self.sleeptime - jit")
 T("C19", "twin-id-mask-form", "client.py", "        self.beacon_id = (self.beacon_id - self.beacon_id % 2) & 0xFFFFFFFF", "        self.beacon_id = (self.beacon_id & ~1) & 0xFFFFFFFF")
+
+# =============================================================================== C10
+M("C10", "module-alias-regression", "c2profile.lark", "    | \"set\" \"module_x64\" string \";\"                 -> module_x64", "    | \"set\" \"module_x64\" string \";\"                 -> module_x86", "C10.R1")
+M("C10", "copy-paste-alias-dns", "c2profile.lark", "    | \"set\" \"get_AAAA\" string \";\"               -> get_aaaa", "    | \"set\" \"get_AAAA\" string \";\"               -> get_a", "C10.R1")
+M("C10", "netbiosu-alias", "c2profile.lark", "    | \"netbiosu\" \";\"                        -> netbiosu", "    | \"netbiosu\" \";\"                        -> netbios", "C10.R1")
+M("C10", "gate-alias-collision", "c2profile.lark", "    | \"OpenThread\" \";\"                      -> openthread", "    | \"OpenThread\" \";\"                      -> openprocess", "C10.R1")
+M("C10", "anonymous-string-terminal", "c2profile.lark", "string: STRING\n", "string: /\"[^\"]*\"/\n", "C10.R2")
+M("C10", "postproc-drops-semicolon", "c2profile.py", "                    for i, x in enumerate(line):\n                        yield x\n", "                    for i, x in enumerate(line):\n                        if x != \";\" or len(line) > 1:\n                            yield x\n", "C10.R3")
+M("C10", "from-text-strips-source", "c2profile.py", "        profile.tree = c2profile_parser.parse(source)", "        profile.tree = c2profile_parser.parse(source.split(\"#\")[0])", "C10.R3")
+T("C10", "twin-as-text-local", "c2profile.py", "        return Reconstructor(c2profile_parser).reconstruct(self.tree, postproc)", "        rec = Reconstructor(c2profile_parser)\n        return rec.reconstruct(self.tree, postproc)")
+T("C10", "twin-new-option", "c2profile.lark", "    | \"set\" \"checksum\" string \";\"                   -> checksum", "    | \"set\" \"checksum\" string \";\"                   -> checksum\n    | \"set\" \"new_option\" string \";\"                 -> new_option")
+T("C10", "twin-comment", "c2profile.lark", "header: string\n", "// unused\nheader: string\n")
+
+# =============================================================================== C11
+M("C11", "list-prop-dropped", "c2profile.py", "            \"http-post.client.output\",\n", "", "C11.R1")
+M("C11", "list-prop-typo", "c2profile.py", "            \"http-get.client.metadata\",", "            \"http-get.client.meta\",", "C11.R1")
+M("C11", "cache-without-hash-test", "c2profile.py", "        if self._dict_hash == hash(self.tree):\n            return self._dict_cache", "        if self._dict_hash is not None:\n            return self._dict_cache", "C11.R2")
+M("C11", "hash-of-other-object", "c2profile.py", "        self._dict_hash = hash(self.tree)\n        self._dict_cache = dict(properties)", "        self._dict_hash = hash(self)\n        self._dict_cache = dict(properties)", "C11.R2")
+M("C11", "from-text-preseeds-hash", "c2profile.py", "        profile.tree = c2profile_parser.parse(source)\n        return profile", "        profile.tree = c2profile_parser.parse(source)\n        profile._dict_hash = hash(profile.tree)\n        return profile", "C11.R2")
+M("C11", "builder-wrong-arity", "c2profile.py", "    strrep = ConfigBlock._pair", "    strrep = ConfigBlock.set_option", "C11.R3")
+M("C11", "builder-unknown-alias", "c2profile.py", "    rtlcreateuserthread = ConfigBlock._enable", "    rtlcreateuserthreads = ConfigBlock._enable", "C11.R3")
+M("C11", "grammar-alias-renamed", "c2profile.lark", "    | \"SetThreadContext\" \";\"                -> setthreadcontext\n\nbeacon_gate_options", "    | \"SetThreadContext\" \";\"                -> set_thread_context\n\nbeacon_gate_options", "C11.R3")
+M("C11", "option-tree-order", "c2profile.py", "                [\n                    Token(\"OPTION\", option),\n                    Tree(\"string\", [Token(\"STRING\", value)]),\n                ],", "                [\n                    Tree(\"string\", [Token(\"STRING\", value)]),\n                    Token(\"OPTION\", option),\n                ],", "C11.R3")
+M("C11", "mask-as-termination", "c2profile.py", "            if option in (\"base64\", \"base64url\", \"mask\", \"netbios\", \"netbiosu\"):", "            if option in (\"base64\", \"base64url\", \"netbios\", \"netbiosu\"):", "C11.R3")
+T("C11", "twin-list-props-tuple", "c2profile.py", "            \"http-get.server.output\",\n        ]", "            \"http-get.server.output\",\n            \"http-post.client.metadata\",\n        ]")
